@@ -242,33 +242,8 @@ class ArrayCoerceDtype(Contract):
 
 
 def install_cast(I):
-    """LazyFrame.cast(mapping, strict): strict -> every non-null value must be castable, else raises; non-strict -> a value
-    that cannot be cast becomes null.  `castable` is an uninterpreted predicate of (value) per call (axiom)."""
-
-    def cast(self, dtypes, strict=True):
-        castable = z3.Function(cur().fresh_name("castable"), z3.RealSort(), z3.BoolSort())
-        cur().ghost["castable"] = castable
-        keys = list(dtypes) if isinstance(dtypes, dict) else list(self.cols)
-        if strict:
-            raise core.Unsupported("strict cast not needed by the functions under contract")
-        cols = dict(self.cols)
-        for k in keys:
-            kk = list(self.cols)[0] if k == "*" else k
-            c = self.cols[kk]
-            cols[kk] = PP.Col(c.at, (lambda c: lambda i: z3.Or(c.null(i), z3.Not(castable(PL._term(c.at(i))))))(c), c.kind)
-        return self.derive(cols=cols)
-
-    PP.FrameP.cast = cast
-
-    # (Expr.cast(strict=False) is part of the polars theory: same `castable` predicate, cur().ghost['castable'])
-    import polars as pl
-
-    def all_horizontal(I, *names):
-        # pl.all_horizontal(key): AND over the selected columns (one column here)
-        name = names[0]
-        return PP.Expr(lambda fr: fr.cols[list(fr.cols)[0] if name == "*" else name], name)
-
-    I.models[id(pl.all_horizontal)] = all_horizontal
+    """(kept for its callers) LazyFrame.cast / Expr.cast(strict=False) and pl.all_horizontal are part of the polars theory: a value that
+    cannot be cast becomes null; `castable` is an uninterpreted predicate of the value (cur().ghost['castable'])."""
 
 
 class PolarsCoercible(Contract):
@@ -277,16 +252,21 @@ class PolarsCoercible(Contract):
 
     target = "pandera.engines.polars_engine:polars_object_coercible"
     check_frame = False
+    # key given: that column; no key (a dataframe-level dtype): a row is coercible iff EVERY column's value is
+    split = {"key": ["a", None]}
 
     def setup(self, I):
         PL.install(I)
         PP.install(I)
-        install_cast(I)
 
     def make_args(self):
-        from contracts.C08_twin_checks import polars_data
+        from pandera.api.polars.types import PolarsData
 
-        data, lf = polars_data("real")
+        lf = PP.FrameP.fresh("lf", columns=("a", "b"), kinds={"a": "real", "b": "real"})
+        data = Obj(PolarsData, "data", pre=True)
+        data.attrs.update(lazyframe=lf, key=self.fixed.get("key", "a"))
+        data.attrs0.update(data.attrs)
+        data.attrs["__fields__order"] = ("lazyframe", "key")
         cur().ghost["lf"] = lf
         return {"data_container": data, "type_": T.fresh_value(T.Any, "type_")}
 
@@ -296,11 +276,11 @@ class PolarsCoercible(Contract):
         if not out["one_flag_column"]:
             return out
         c = result.cols["check_output"]
-        src = lf.cols["a"]
         castable = cur().ghost["castable"]
         i = z3.Int(cur().fresh_name("row"))
         core.register_model_var("row", i)
-        want = z3.Or(src.null(i), castable(PL._term(src.at(i))))
+        names = ["a"] if self.fixed.get("key", "a") == "a" else ["a", "b"]
+        want = z3.And(*[z3.Or(lf.cols[n].null(i), castable(PL._term(lf.cols[n].at(i)))) for n in names])
         out["flag_never_null"] = SBool(z3.Implies(lf.sel(i), z3.Not(c.null(i))))
         out["coercible_iff_null_or_castable"] = SBool(z3.Implies(lf.sel(i), core.as_z3_bool(c.at(i)) == want))
         return out
